@@ -226,3 +226,42 @@ pub fn g3(f: &F, sigma: &[String]) -> Vec<String> {
     }
     out
 }
+
+/// G5: a reduced, purely structural alphabet (one bracket pair of each kind, separator, two
+/// connecters incl. an image connecter, two copulas, placeholder, an atom, a number, space,
+/// punctuation, stamp/truth/budget brackets) explored to a greater length than G1.
+pub fn structural_sigma(f: &F) -> Vec<String> {
+    let e = f.e;
+    let c = &e.compound;
+    let mut v: Vec<&str> = vec![
+        c.brackets.0,
+        c.brackets.1,
+        c.separator,
+        c.brackets_set_extension.0,
+        c.brackets_set_extension.1,
+        e.statement.brackets.0,
+        e.statement.brackets.1,
+        c.connecter_conjunction,
+        c.connecter_image_extension,
+        c.connecter_negation,
+        e.statement.copula_inheritance,
+        e.statement.copula_instance_property,
+        e.atom.prefix_placeholder,
+        e.atom.prefix_variable_independent,
+        "a",
+        "1",
+        " ",
+        e.sentence.punctuation_judgement,
+        e.sentence.truth_brackets.0,
+        e.sentence.truth_brackets.1,
+        e.task.budget_brackets.1,
+        e.sentence.stamp_fixed,
+    ];
+    let mut out: Vec<String> = vec![];
+    for k in v.drain(..) {
+        if !k.is_empty() && !out.iter().any(|o| o == k) {
+            out.push(k.to_string());
+        }
+    }
+    out
+}
